@@ -165,8 +165,10 @@ func (p *coqPrinter) fail(format string, args ...any) {
 }
 
 func (p *coqPrinter) noteQuoted(ts hclwrite.Tokens) {
-	if len(ts) == 3 && ts[1].Type == hclsyntax.TokenQuotedLit {
-		p.unesc[string(ts[1].Bytes)] = true
+	for _, t := range ts {
+		if t.Type == hclsyntax.TokenQuotedLit {
+			p.unesc[string(t.Bytes)] = true
+		}
 	}
 }
 
@@ -304,12 +306,26 @@ func (p *coqPrinter) state(d *hclwrite.VerifNode, shelf []*hclwrite.Block) strin
 	return fmt.Sprintf("mkState %s (%s) %s %s", coqToks(pre), p.body(d.Children[bi]), coqToks(post), hv.CoqList(sh))
 }
 
+// labelToks: the tokens blockLabels.Replace generates for each label (an input of
+// the model: generate.go and the scanner are not part of it). They are taken from
+// the real code path: the labels node of NewBlock("x", labels).
 func (p *coqPrinter) labelToks(ls []string) string {
-	items := make([]string, len(ls))
-	for i, l := range ls {
-		ts := hclwrite.TokensForValue(cty.StringVal(l))
-		p.noteQuoted(ts)
-		items[i] = coqToks(ts)
+	items := make([]string, 0, len(ls))
+	d := hclwrite.VerifDumpBlock(hclwrite.NewBlock("x", ls))
+	for _, c := range d.Children {
+		if c.Kind != "blockLabels" {
+			continue
+		}
+		for _, l := range c.Children {
+			if l.Kind != "quoted" || !l.InItems {
+				p.fail("unexpected label node %s written by the API", l.Kind)
+			}
+			p.noteQuoted(l.Tokens)
+			items = append(items, coqToks(l.Tokens))
+		}
+	}
+	if len(items) != len(ls) {
+		p.fail("NewBlock wrote %d label nodes for %d labels", len(items), len(ls))
 	}
 	return hv.CoqList(items)
 }
@@ -373,7 +389,7 @@ func observeBody(b *hclwrite.Body) string {
 	return fmt.Sprintf("OB %s %s", hv.CoqList(as), hv.CoqList(bs))
 }
 
-func be3(n int) []byte { return []byte{byte(n >> 16), byte(n >> 8), byte(n)} }
+func be3(n int) []byte         { return []byte{byte(n >> 16), byte(n >> 8), byte(n)} }
 func serBytes(b []byte) []byte { return append(be3(len(b)), b...) }
 
 // serBody: canonical bytes of the readers' answers, shared with TreeCheck.ser_bobs
@@ -588,6 +604,75 @@ func bodyUnterminated(in *inst, path []int) (un bool) {
 	return !endsLine(before)
 }
 
+// dumpBodyAt returns the dump of the body at the given path and the tokens that
+// precede it inside its block (nil for the root body).
+func dumpBodyAt(in *inst, path []int) (cur *hclwrite.VerifNode) {
+	defer func() {
+		if recover() != nil {
+			cur = nil
+		}
+	}()
+	d := hclwrite.VerifDumpFile(in.f)
+	cur = d.Children[d.Handles["body"]]
+	for _, i := range path {
+		n := 0
+		var blk *hclwrite.VerifNode
+		for _, c := range cur.Children {
+			if c.Kind == "Block" && c.InItems {
+				if n == i {
+					blk = c
+					break
+				}
+				n++
+			}
+		}
+		if blk == nil {
+			return nil
+		}
+		cur = nil
+		for _, c := range blk.Children {
+			if c.Kind == "Body" {
+				cur = c
+				break
+			}
+		}
+		if cur == nil {
+			return nil
+		}
+	}
+	return cur
+}
+
+// removesBraceLineComment: the operation removes the FIRST child of a nested
+// body and that child starts with a comment token, i.e. the comment written
+// after the opening brace (`b { # c`), which the loader files as the lead
+// comment of the first item although it is the line end of the brace line.
+func removesBraceLineComment(in *inst, o hop) bool {
+	if len(o.Path) == 0 || (o.Kind != opRemoveAttr && o.Kind != opRemoveBlock) {
+		return false
+	}
+	b := dumpBodyAt(in, o.Path)
+	if b == nil || len(b.Children) == 0 {
+		return false
+	}
+	first := b.Children[0]
+	ts := flatTokens(first)
+	if !first.InItems || len(ts) == 0 || ts[0].Type != hclsyntax.TokenComment {
+		return false
+	}
+	switch o.Kind {
+	case opRemoveAttr:
+		if first.Kind != "Attribute" {
+			return false
+		}
+		i := first.Handles["name"]
+		return i >= 0 && i < len(first.Children) && len(first.Children[i].Tokens) == 1 && string(first.Children[i].Tokens[0].Bytes) == o.Name
+	case opRemoveBlock:
+		return first.Kind == "Block" && o.Index == 0
+	}
+	return false
+}
+
 func collectProblems(n *hclwrite.VerifNode, path string, out *[]string) {
 	for _, p := range n.Problems {
 		*out = append(*out, path+n.Kind+": "+p)
@@ -613,7 +698,8 @@ func anyMirror(b *mBody, f func(*mItem, *mBody) bool) bool {
 }
 
 var fatalKinds = map[string]bool{
-	"clear-leaves-items": true, "append-after-unterminated-item": true, "reparse-error": true,
+	"remove-item-owning-brace-line-comment": true,
+	"clear-leaves-items":                    true, "append-after-unterminated-item": true, "reparse-error": true,
 	"reparse-differs": true, "panic": true, "wf-broken": true, "reader-disagrees": true, "untouched-changed": true,
 }
 
@@ -681,11 +767,12 @@ func runCase(c *tcase, emit bool, full bool) (res *caseResult) {
 		// instance B first: what it needs from the pre-state
 		var before sigMap
 		var touched map[any]bool
-		unterminated := false
+		unterminated, braceComment := false, false
 		if oracleOn {
 			before = collectAll(b)
 			touched = touchedBy(b, o)
 			unterminated = bodyUnterminated(b, o.Path)
+			braceComment = removesBraceLineComment(b, o)
 		}
 		wasRetyped := false
 		if o.Kind == opSetType {
@@ -764,10 +851,18 @@ func runCase(c *tcase, emit bool, full bool) (res *caseResult) {
 		switch o.Kind {
 		case opSetVal, opSetTrav, opSetRaw:
 			appendish = !hadName
-		case opAppendNewBlock, opAppendBlock, opAppendRaw:
+		case opAppendNewBlock, opAppendBlock, opAppendRaw, opAppendNewline:
 			appendish = true
 		}
-		fs = append(fs, oracleStep(b, m, before, touched, &o, unterminated && appendish)...)
+		sfs := oracleStep(b, m, before, touched, &o, unterminated && appendish)
+		if braceComment {
+			for i := range sfs {
+				if sfs[i].kind == "reparse-error" || sfs[i].kind == "reparse-differs" {
+					sfs[i].kind = "remove-item-owning-brace-line-comment"
+				}
+			}
+		}
+		fs = append(fs, sfs...)
 		report(step, fs)
 	}
 	if emit {
@@ -974,6 +1069,10 @@ func corpus() []*tcase {
 		{Parsed: true, Src: "b { a = 1 }\n", Ops: []hop{set([]int{0}, "c")}},
 		{Parsed: true, Src: "b {}\n", Ops: []hop{set([]int{0}, "c")}},
 		{Parsed: true, Src: "a = 1 # c", Ops: []hop{set(nil, "b")}},
+		// comment on the line of the opening brace is filed as lead comment of the first item
+		{Parsed: true, Src: "b { # c\n  a = 1\n  z = 2\n}\n", Ops: []hop{{Kind: opRemoveAttr, Path: []int{0}, Name: "a"}}},
+		// a label containing an escaped template introducer after the same character
+		{Ops: []hop{{Kind: opAppendNewBlock, Name: "a", Labels: []string{"$${x}"}}}},
 		{Ops: []hop{{Kind: opSetRaw, Name: "a", Raw: "1 + 2"}, {Kind: opSetTrav, Name: "b", Trav: "var.x[0].y"}, {Kind: opAppendRaw, Raw: "# c\n"}, {Kind: opSetRaw, Name: "a", Raw: "foo(a, b)"}}},
 	}
 }
@@ -996,7 +1095,7 @@ func lenBucket(n int) string {
 
 var knownKinds = map[string]bool{"settype-stale-handle": true, "label-with-template-char-dropped": true,
 	"clear-leaves-items": true, "set-returns-nil": true, "append-after-unterminated-item": true,
-	"label-escaped-introducer-misread": true}
+	"label-escaped-introducer-misread": true, "remove-item-owning-brace-line-comment": true}
 
 func runC12(cfg *hv.RunCfg) error {
 	rep := hv.NewReport("C12", cfg.Seed)
